@@ -140,6 +140,9 @@ package syncer
 //@   after_call lmdb.(*Txn).OpenDBI#1 ghost loc_shadowDbi := uint64(ret0)
 //@   at_call strategy.IterUpdate#0 assert captures_into_the_shadow_dbi: uint64(arg1) == ghost_loc_shadowDbi
 //@   at_call syncer.dupSortHackEncode#0 assert hack_only_for_dupsort: ghost_loc_appFlags & 4 != 0
+//@   loop 0 ghost loc_encoded := 0
+//@   after_call syncer.dupSortHackEncode#0 ghost loc_encoded := 1
+//@   at_call strategy.IterUpdate#0 assert every_dupsort_dbi_is_encoded: iff(ghost_loc_appFlags & 4 != 0, ghost_loc_encoded == 1)
 //@   ensures all_captured: r0 == nil ==> ghost_loc_pending == 0
 //@   ensures captured: r0 == nil ==> ghost_uncap == 18446744073709551615
 //@   ensures dirty_only_set: ghost_dirty == old(ghost_dirty) || ghost_dirty == 1
@@ -157,8 +160,11 @@ package syncer
 //@   after_call strategy.EmptyPut#0 ghost loc_pending := 0
 //@   loop 0 invariant every_dbi_projected: ghost_loc_pending == 0
 //@   at_call syncer.(*Syncer).readDBI#0 assert reads_shadow_dbi: hasPrefix(arg2, "_sync_shadow_") && !arg4
-//@   at_call strategy.EmptyPut#0 assert dupsort_rebuilds: isDupSort
-//@   at_call strategy.IterUpdate#0 assert plain_iterates: !isDupSort
+//@   after_call lmdb.(*Txn).Flags#0 ghost loc_tflags := uint64(ret0)
+//@   loop 0 ghost loc_decoded := 0
+//@   after_call syncer.dupSortHackDecode#0 ghost loc_decoded := 1
+//@   at_call strategy.EmptyPut#0 assert dupsort_rebuilds: isDupSort && ghost_loc_tflags & 4 != 0 && ghost_loc_decoded == 1
+//@   at_call strategy.IterUpdate#0 assert plain_iterates: !isDupSort && ghost_loc_tflags & 4 == 0 && ghost_loc_decoded == 0
 //@   ensures all_projected: r0 == nil ==> ghost_loc_pending == 0
 //@   ensures dirty_only_set: ghost_dirty == old(ghost_dirty) || ghost_dirty == 1
 
